@@ -50,7 +50,7 @@ Definition Reorged (n n' : node) : Prop :=
 Lemma execute_block_evs apply n b n' : execute_block apply n b = Some n' ->
   evs n' = EvMemPoolDel (hash_field b) :: evs n.
 Proof.
-  unfold execute_block. destruct (exec_ok apply (sdb_root n) b); [|discriminate].
+  unfold execute_block. destruct (pmem n =? sdb_root n); [|discriminate]. destruct (exec_ok apply (sdb_root n) b); [|discriminate].
   intros H. inversion H; subst; clear H. simpl.
   match goal with |- context [emit_ne ?x ?u] => destruct (emit_ne_fields x u) as (_ & _ & _ & _ & _ & F) end.
   rewrite F. reflexivity.
@@ -264,7 +264,7 @@ Proof.
   destruct (no st <? lib n) eqn:El.
   { inversion R; subst. left. apply Ext_refl. }
   apply N.ltb_ge in El.
-  destruct (rollforward apply (set_sdb n (root st)) (rev news)) as [n2 ok] eqn:RF.
+  destruct (rollforward apply (set_state n (root st)) (rev news)) as [n2 ok] eqn:RF.
   destruct (rollforward_frame apply _ _ _ _ RF) as (Fb & Fo & Fbad & Flib & Ff & Fm & Fr & Fok).
   destruct (rollforward_evs apply _ _ _ _ RF) as (new2 & Ev2 & Pu2).
   simpl in Fb, Fo, Fbad, Flib, Ff, Fm, Fr, Ev2.
